@@ -100,3 +100,74 @@ package acr
 //@     invariant [sums_kept] len(state) == len(stateIndices) && fresh_arr(state) && (forall k int :: {state[k]} 0 <= k && k < len(state) ==> state[k] == lold(state[k]) && state[k] == lold(states[child.id][k]) + lold(states[cur.id][k]))
 //@     invariant [child_keeps_exactly_the_states_shared_with_the_node] forall k int :: {states[child.id][k]} 0 <= k && k < len(stateIndices) ==> states[child.id][k] == (k <= rangeindex ? (lold(states[child.id][k]) + lold(states[cur.id][k]) > 1.0 ? 1.0 : 0.0) : lold(states[child.id][k]))
 //@     invariant [node_untouched] rowsok(states, len(stateIndices)) && rowsapart(states) && (forall k int :: {states[cur.id][k]} 0 <= k && k < len(stateIndices) ==> states[cur.id][k] == lold(states[cur.id][k]))
+
+// assignStatesToTree (property C12, "states written as node comments"): for every node the buffer is emptied first, then
+// exactly the states with a positive count are written, each by its own name, separated by one bar; a star when no
+// state has a positive count; the node's comments are cleared and the text becomes the node's single comment
+//@ func acr.assignStatesToTree
+//@   flag noframe
+//@   flag countcalls
+//@   requires t != nil
+//@   requires [one_row_per_node_identifier_no_wider_than_the_alphabet] (forall m *tree.Node :: {m.id} allocated(m) ==> 0 <= m.id && m.id < len(states)) && (forall k int :: {states[k]} 0 <= k && k < len(states) ==> len(states[k]) <= len(alphabet))
+//@   call (*bytes.Buffer).WriteString [a_state_is_written_by_its_own_name_only_when_its_count_is_positive] a1 == alphabet[rangeindex + 1] && states[n.id][rangeindex + 1] > 0.0
+//@   call (*bytes.Buffer).WriteRune [a_bar_between_two_states_a_star_only_when_there_is_none] (a1 == 124 && nb > 0) || (a1 == 42 && nb == 0)
+//@   call (*tree.Node).ClearComments [the_comments_of_the_node_whose_states_were_written_are_cleared] a0 == n
+//@   call (*tree.Node).AddComment [the_text_becomes_a_comment_of_that_node] a0 == n && ghost(ncalls_ClearComments) - atHead(ghost(ncalls_ClearComments)) == 1
+//@   loop 1
+//@     step [per_node_the_buffer_is_emptied_once_and_one_comment_is_set] ghost(ncalls_Reset) == atHead(ghost(ncalls_Reset)) + 1 && ghost(ncalls_AddComment) == atHead(ghost(ncalls_AddComment)) + 1 && ghost(ncalls_String) == atHead(ghost(ncalls_String)) + 1
+//@   loop 2
+//@     step [every_state_with_a_positive_count_is_written_and_counted] next(nb) == nb + (states[n.id][rangeindex + 1] > 0.0 ? 1 : 0) && ghost(ncalls_WriteString) == atHead(ghost(ncalls_WriteString)) + (states[n.id][rangeindex + 1] > 0.0 ? 1 : 0)
+//@     step [a_bar_exactly_before_every_state_but_the_first] ghost(ncalls_WriteRune) == atHead(ghost(ncalls_WriteRune)) + ((states[n.id][rangeindex + 1] > 0.0 && nb > 0) ? 1 : 0)
+
+// buildInternalNamesToStatesMap (property C12, "returned map"): only inner nodes get an entry; its key is the node's name
+// when it has one and its identifier otherwise; the listed states are exactly those with a positive count, each by its
+// own name, or a star when there is none; the list is sorted before it is joined with commas
+//@ func acr.buildInternalNamesToStatesMap
+//@   flag noframe
+//@   flag countcalls
+//@   requires t != nil
+//@   requires [one_row_per_node_identifier_no_wider_than_the_alphabet] (forall m *tree.Node :: {m.id} allocated(m) ==> 0 <= m.id && m.id < len(states)) && (forall k int :: {states[k]} 0 <= k && k < len(states) ==> len(states[k]) <= len(alphabet))
+//@   call strings.Join [the_sorted_list_is_joined_with_commas] a1 == "," && ghost(ncalls_Strings) - atHead(ghost(ncalls_Strings)) == 1
+//@   call fmt.Sprintf [the_identifier_stands_in_for_a_missing_name] a0 == "%d"
+//@   loop 1
+//@     step [tips_get_no_entry_inner_nodes_exactly_one] ghost(ncalls_Join) == atHead(ghost(ncalls_Join)) + (len(n.neigh) == 1 ? 0 : 1)
+//@   loop 2
+//@     step [every_state_with_a_positive_count_is_listed_by_its_own_name] next(nb) == nb + (states[n.id][rangeindex + 1] > 0.0 ? 1 : 0) && len(next(st)) == len(st) + (states[n.id][rangeindex + 1] > 0.0 ? 1 : 0) && (states[n.id][rangeindex + 1] > 0.0 ==> next(st)[len(st)] == alphabet[rangeindex + 1])
+
+// ParsimonyAcr (properties C12, C18): the alphabet takes every distinct tip state exactly once and is sorted before the
+// state indices are handed out (so the result does not depend on the order in which the map delivers the states); node i
+// of the node list gets identifier i and rows as wide as the alphabet in both tables; the up-pass runs from the root over
+// the tip states; then exactly the passes of the requested algorithm, in their order, from the root; an unknown
+// algorithm is an error; the map returned and the comments are produced from the final down-side table and the alphabet
+//@ func acr.ParsimonyAcr
+//@   flag noframe
+//@   flag countcalls
+//@   requires t != nil
+//@   call sort.Strings [the_alphabet_is_sorted] a0 == alphabet
+//@   call acr.AncestralStateIndices [indices_are_handed_out_on_the_sorted_alphabet] a0 == alphabet && ghost(ncalls_Strings) == old(ghost(ncalls_Strings)) + 1
+//@   call (*tree.Node).SetId [node_i_of_the_list_gets_identifier_i] a0 == nodes[rangeindex + 1] && a1 == rangeindex + 1
+//@   call acr.parsimonyUPPASS [the_up_pass_starts_at_the_root_over_the_tip_states] a0 == t.root && a1 == nil && a2 == tipCharacters && a3 == states && a4 == stateIndices
+//@   call acr.parsimonyDOWNPASS [the_down_pass_runs_for_downpass_and_deltran_resolving_at_random_only_as_the_last_pass] (algo == ALGO_DOWNPASS || algo == ALGO_DELTRAN) && a0 == t.root && a1 == nil && a2 == states && a3 == upstates && a4 == stateIndices && a5 == (algo == ALGO_DOWNPASS && randomResolve)
+//@   call acr.parsimonyDELTRAN [deltran_refines_after_the_down_pass] algo == ALGO_DELTRAN && a0 == t.root && a1 == nil && a2 == states && a3 == stateIndices && a4 == randomResolve && ghost(ncalls_parsimonyDOWNPASS) == old(ghost(ncalls_parsimonyDOWNPASS)) + 1
+//@   call acr.parsimonyACCTRAN [acctran_refines_right_after_the_up_pass] algo == ALGO_ACCTRAN && a0 == t.root && a1 == nil && a2 == states && a3 == stateIndices && a4 == randomResolve && ghost(ncalls_parsimonyDOWNPASS) == old(ghost(ncalls_parsimonyDOWNPASS))
+//@   call acr.buildInternalNamesToStatesMap [the_map_is_built_from_the_final_table_and_the_alphabet] a0 == t && a1 == states && a2 == alphabet && ghost(ncalls_parsimonyUPPASS) == old(ghost(ncalls_parsimonyUPPASS)) + 1
+//@   call acr.assignStatesToTree [the_comments_are_written_from_the_same_table_and_alphabet] a0 == t && a1 == states && a2 == alphabet
+//@   ensures [an_unknown_algorithm_is_an_error] algo != ALGO_DELTRAN && algo != ALGO_ACCTRAN && algo != ALGO_DOWNPASS && algo != ALGO_NONE ==> result2 != nil
+//@   loop 1
+//@     step [a_state_joins_the_alphabet_exactly_when_it_was_not_seen_before] len(next(alphabet)) == len(alphabet) + (atHead(has(seenState, state)) ? 0 : 1) && has(seenState, state) && (!atHead(has(seenState, state)) ==> next(alphabet)[len(alphabet)] == state)
+//@   loop 2
+//@     invariant [tables_have_one_row_per_node] len(states) == len(nodes) && len(upstates) == len(nodes) && arr(states) != arr(upstates)
+//@     step [both_rows_of_node_i_are_as_wide_as_the_alphabet] len(states[rangeindex + 1]) == len(alphabet) && len(upstates[rangeindex + 1]) == len(alphabet)
+
+// AncestralStateIndices: every state of the alphabet gets an index, and every index handed out points back at its state
+//@ func acr.AncestralStateIndices
+//@   allocates map[string]int
+//@   assigns nothing
+//@   ensures [fresh_map] result != nil && fresh(result)
+//@   ensures [every_index_points_back_at_its_state] forall s string :: {has(result, s)} {result[s]} has(result, s) ==> 0 <= result[s] && result[s] < len(alphabet) && alphabet[result[s]] == s
+//@   ensures [every_state_of_the_alphabet_has_an_index] forall k int :: {alphabet[k]} 0 <= k && k < len(alphabet) ==> has(result, alphabet[k])
+//@   loop 1
+//@     assigns mapof(indices)
+//@     invariant [fresh_map] indices != nil && fresh(indices)
+//@     invariant [every_index_points_back_at_its_state] forall s string :: {has(indices, s)} {indices[s]} has(indices, s) ==> 0 <= indices[s] && indices[s] <= rangeindex && alphabet[indices[s]] == s
+//@     invariant [every_state_so_far_has_an_index] forall k int :: {alphabet[k]} 0 <= k && k <= rangeindex ==> has(indices, alphabet[k])
